@@ -30,6 +30,7 @@
 
 #include <orc/orcmips.h>
 #include <orc/orcdebug.h>
+#include <orc/orcinternal.h>
 
 #define MIPS_IMMEDIATE_INSTRUCTION(opcode,rs,rt,immediate) \
     (((opcode) & 0x3f) << 26 \
@@ -83,6 +84,12 @@ orc_mips_reg_name (int reg)
 static void
 orc_mips_emit (OrcCompiler *compiler, orc_uint32 insn)
 {
+  if (compiler->codeptr - compiler->code > ORC_COMPILER_CODE_BUFFER_SIZE - 4) {
+    /* the unrolled loops of a long program do not fit: give up instead of
+     * writing past the code buffer */
+    orc_compiler_error (compiler, "generated code does not fit the code buffer");
+    return;
+  }
   ORC_WRITE_UINT32_LE (compiler->codeptr, insn);
   compiler->codeptr+=4;
 }
